@@ -332,8 +332,68 @@ func (p *Path) applySpec(in ssa.Instruction, site string, spec *FuncSpec, what s
 	for _, e := range spec.Ensures {
 		p.assumeClause(c2, e, "ensures of "+what)
 	}
+	// dynamic dispatch refinement: if the receiver's dynamic type is a repo type whose method is under contract,
+	// that (verified) contract holds as well
+	if strings.HasPrefix(what, "iface:") && len(args) > 0 {
+		p.dispatchFacts(what, args, res, resTy, &pre)
+	}
 	p.siteGhosts(in, "after")
 	return res
+}
+
+// dispatchFacts: for an interface method call, assume `dynamic type is *T ==> ensures of (*T).M` for every repo
+// type *T that has a contract for M.
+func (p *Path) dispatchFacts(what string, args []Val, res Val, resTy *types.Tuple, pre *State) {
+	env := p.fx.env
+	meth := what[strings.LastIndex(what, ".")+1:]
+	for key, spec := range env.specs.Funcs {
+		if spec.Kind != "func" || !strings.HasSuffix(key, ")."+meth) || !strings.HasPrefix(key, repoModule) {
+			continue
+		}
+		fn := p.fx.v.funcs[key]
+		if fn == nil || fn.Signature.Recv() == nil || len(fn.Params) != len(args) {
+			continue
+		}
+		rt := fn.Signature.Recv().Type()
+		pt, ok := rt.(*types.Pointer)
+		if !ok {
+			continue
+		}
+		iface, ok := args[0].Ty.Underlying().(*types.Interface)
+		if !ok || !types.Implements(rt, iface) {
+			continue
+		}
+		_ = pt
+		vars := map[string]Val{}
+		vars[fn.Params[0].Name()] = Val{T: "(iface_ref " + args[0].T + ")", Ty: rt}
+		for i := 1; i < len(args); i++ {
+			vars[fn.Params[i].Name()] = args[i]
+		}
+		if len(res.Tuple) > 0 {
+			for k, v := range res.Tuple {
+				vars[fmt.Sprintf("result%d", k)] = v
+				if n := resTy.At(k).Name(); n != "" {
+					vars[n] = v
+				}
+			}
+		} else if res.T != "" {
+			vars["result"] = res
+			vars["result0"] = res
+			if n := fn.Signature.Results().At(0).Name(); n != "" && n != "_" {
+				vars[n] = res
+			}
+		}
+		c := &SpecCtx{p: p, st: &p.st, old: pre, vars: vars, pkg: fn.Pkg.Pkg}
+		tag := env.typeTagOf(rt)
+		for _, e := range spec.Ensures {
+			t, err := c.EvalBool(e.E)
+			if err != nil {
+				continue
+			}
+			p.assume(fmt.Sprintf("(=> (= (iface_type %s) %d) %s)", args[0].T, tag, t))
+		}
+		env.assumptions["dispatch: dynamic type "+shortTypeName(rt)+" ==> contract of "+shortKey(key)] = true
+	}
 }
 
 func closureCells(callee *ssa.Function, bvals []Val) map[string]Val {
